@@ -98,29 +98,31 @@ type driver struct {
 	skipUsed string
 	workers  int
 
-	mu        sync.Mutex
-	results   int
-	verdicts  map[string]int
-	steps     int64
-	ticks     int64
-	fakeNs    int64
-	fired     map[string]int
-	probes    map[string]int
-	parks     map[string]int
-	families  map[string]int
-	policies  map[string]int
-	hashes    map[string]bool
-	ntHashes  map[string]bool
-	pairs     map[string]bool
-	samples   []json.RawMessage
-	preempt   int64
-	anon      int64
-	leftover  int
-	founds    []found
-	machinery []string
-	unrepro   []string
-	crashes   int
-	wallUs    int64
+	mu           sync.Mutex
+	results      int
+	verdicts     map[string]int
+	steps        int64
+	ticks        int64
+	fakeNs       int64
+	fired        map[string]int
+	probes       map[string]int
+	parks        map[string]int
+	families     map[string]int
+	policies     map[string]int
+	hashes       map[string]bool
+	ntHashes     map[string]bool
+	pairs        map[string]bool
+	samples      []json.RawMessage
+	preempt      int64
+	anon         int64
+	leftover     int
+	founds       []found
+	machinery    []string
+	unrepro      []string
+	stalls       []string
+	stallRetried int
+	crashes      int
+	wallUs       int64
 }
 
 func main() {
@@ -344,10 +346,34 @@ func (d *driver) runBlock(start uint64, count int, extra []string) {
 		}
 		next += uint64(wo.lastEnd)
 		if wo.watchdog {
+			// No scheduler step for the whole watchdog period. A starved machine can do
+			// that to a healthy run, so the seed gets one more chance in a fresh process
+			// with a longer period; only a repeated stall is reported (the goroutine dump
+			// of both attempts is kept for inspection).
+			seed := wo.crashOn
+			if seed == 0 {
+				seed = next
+			}
+			dump := filepath.Join(verifDir, "replays", fmt.Sprintf("stall-%s-%d.stderr.txt", d.prop, seed))
+			os.MkdirAll(filepath.Dir(dump), 0o755)
+			_ = os.WriteFile(dump, []byte(head(wo.stderr, 400000)), 0o644)
+			env2 := append([]string{fmt.Sprintf("SIM_SEEDS=%d:1", seed), "SIM_OUT=" + d.scratch, "SIM_WATCHDOG_S=90"}, extra...)
+			wo2 := d.runWorker(env2, 10*time.Minute)
+			for _, r := range wo2.results {
+				d.account(r)
+			}
 			d.mu.Lock()
-			d.machinery = append(d.machinery, fmt.Sprintf("watchdog fired during seed %d\n%s", wo.crashOn, tail(wo.stderr, 4000)))
+			if wo2.watchdog || (wo2.lastEnd == 0 && !wo2.crashed) {
+				d.stalls = append(d.stalls, fmt.Sprintf("no scheduler progress in two fresh processes during seed %d (goroutine dump: %s)", seed, dump))
+			} else {
+				d.stallRetried++
+				os.Remove(dump)
+			}
 			d.mu.Unlock()
-			next++
+			if wo2.crashed && !wo2.watchdog {
+				d.handleCrash(wo2.crashOn, wo2.stderr, extra)
+			}
+			next = seed + 1
 			continue
 		}
 		if wo.crashed {
@@ -362,6 +388,13 @@ func (d *driver) runBlock(start uint64, count int, extra []string) {
 			return
 		}
 	}
+}
+
+func head(s string, n int) string {
+	if len(s) > n {
+		return s[:n]
+	}
+	return s
 }
 
 func tail(s string, n int) string {
@@ -688,6 +721,10 @@ func (d *driver) finish(t0 time.Time, nomin bool) int {
 	}
 	nviol := 0
 	unconfirmed := append([]string(nil), d.unrepro...)
+	// a run that made no progress in real time, twice: trouble of the machinery or
+	// of the machine, not a verdict on the property - but it does not undo
+	// violations that were confirmed by replay in the same batch
+	unconfirmed = append(unconfirmed, d.stalls...)
 	if code != 2 {
 		os.MkdirAll(filepath.Join(verifDir, "replays"), 0o755)
 		for i, r := range reports {
